@@ -1,4 +1,4 @@
-import WaVerif.Lemmas.C22
+import WaVerif.Lemmas.C22Utf8
 /-!
 # C22 — property theorems (text diffs)
 
@@ -179,5 +179,44 @@ theorem apply_never_wrong_size (src : List Nat) (es : List Edit) : apply src es 
     have hl := length_applyGo src _ 0 (Nat.zero_le _) hc
     simp only [hv', hl]
     simp
+
+/-! ## the guard `ValidUtf8` is exactly "is the encoding of Unicode scalar values" -/
+
+/-- decoding the encoding of scalar values (no surrogates, ≤ U+10FFFF) gives them back … -/
+theorem decode_utf8_scalars (rs : List Nat) (h : ∀ r ∈ rs, Scalar r) : decodeRunes (utf8 rs) = rs :=
+  decodeRunes_utf8 rs h
+
+/-- … so every such encoding satisfies the guard of `strings_apply` -/
+theorem validUtf8_of_scalars (rs : List Nat) (h : ∀ r ∈ rs, Scalar r) : ValidUtf8 (utf8 rs) := by
+  unfold ValidUtf8; rw [decodeRunes_utf8 rs h]
+
+example : ∀ r ∈ [0x61, 0xE9, 0x4F60, 0x1F600], Scalar r := by decide
+
+/-! ## unified rendering — statement only (decided by the oracle, not proved)
+
+`patchHunks` is the reference interpreter; the compiled model evaluates this statement on
+every generated case (a failure shows up as a correspondence difference), the check's
+python interpreter evaluates it on the real code's text output.  With `fixJoin = false`
+(the pinned code) the new-side start lines are wrong after joined edits, so only the
+non-strict form can hold there (recorded finding + proposed fix). -/
+def UnifiedPatchStatement (fixJoin : Bool) : Prop :=
+  ∀ (src : List Nat) (es : List Edit) (ctx : Nat) (out : List Nat) (hs : List Hunk),
+    0 < ctx → apply src es = .ok out → toUnified fixJoin src es ctx = .ok hs →
+    patchHunks fixJoin (splitLines src) 0 0 hs = some (splitLines out)
+
+/-- the strict form is false of the pinned code (`fixJoin = false` with strict checking):
+lines `a`..`l`, edits on lines 1, 5 and 12, one context line… kept small: 2 context lines are
+not needed; witness evaluated by `decide` on sorted edits. -/
+def joinedWitnessSrc : List Nat := [97,10, 98,10, 99,10, 100,10, 101,10, 102,10, 103,10, 104,10, 105,10, 106,10]
+def joinedWitnessEdits : List Edit := [⟨0, 1, [88]⟩, ⟨4, 5, [89]⟩, ⟨18, 19, [90]⟩]
+
+theorem unified_new_start_wrong_in_pinned_code :
+    (match toUnified false joinedWitnessSrc joinedWitnessEdits 1 with
+     | .ok hs => patchHunks true (splitLines joinedWitnessSrc) 0 0 hs
+     | .error _ => none) = none ∧
+    (match toUnified true joinedWitnessSrc joinedWitnessEdits 1 with
+     | .ok hs => patchHunks true (splitLines joinedWitnessSrc) 0 0 hs
+     | .error _ => none) = some (splitLines [88,10, 98,10, 89,10, 100,10, 101,10, 102,10, 103,10, 104,10, 105,10, 90,10]) := by
+  decide
 
 end WaVerif.C22
